@@ -21,7 +21,8 @@ impl Check for C13 {
     fn generate(&self, r: &mut Rng, tier: Tier, st: &mut Stats) -> Trace {
         let (mc, mr) = (24, 8);
         let (cols, rows) = gen_size(r, mc, mr);
-        let limit = *r.pick(&[Some(0), Some(0), Some(1), Some(2), Some(5), Some(9), Some(10), Some(11), Some(15), Some(20), Some(30), Some(100), None]);
+        let (cols, rows) = maybe_gigantic(r, (cols, rows));
+        let limit = *r.pick(&[Some(0), Some(0), Some(1), Some(2), Some(5), Some(9), Some(10), Some(11), Some(15), Some(20), Some(30), Some(100), Some(100), Some(1000), Some(1001), Some(1500), None]);
         let cfg = Config { cols, rows, limit };
         let mut p = Profile::chaos();
         // heavy scrolling
@@ -125,7 +126,7 @@ impl Check for C13 {
     }
     fn meta(&self) -> Meta {
         Meta {
-            rule: "scroll-heavy chaos sessions under every limit (0,1,2,5,9,10,11,15,20,30,100,None), consumer draining all / k / nothing, narrowing resizes, alternate-screen excursions; after each feed_str/resize whose Changes is gone: lines().len() <= rows + L + L/10, == rows for L = 0, == rows while the alternate screen shows (known from the lock-step function stream); non-trivial = a trim fired, scrollback was non-empty or the run ended on the alternate screen; distinct = (final screen, peak scrollback) digests",
+            rule: "scroll-heavy chaos sessions under every limit (0,1,2,5,9,10,11,15,20,30,100,1000,1001,1500,None; line-feed bursts of 1150-4000 and rarely 72200 rows), consumer draining all / k / nothing, narrowing resizes, alternate-screen excursions; after each feed_str/resize whose Changes is gone: lines().len() <= rows + L + L/10, == rows for L = 0, == rows while the alternate screen shows (known from the lock-step function stream); non-trivial = a trim fired, scrollback was non-empty or the run ended on the alternate screen; distinct = (final screen, peak scrollback) digests",
             assumptions: vec!["'alternate screen showing' is derived from the DECSET/DECRST/RIS functions the lock-step real parser dispatched", "no bound is stated after feed(char), none is checked", "a run in which avt panics is abandoned (C01's subject)"],
             real: vec!["avt::Vt", "avt::parser::Parser (lock-step)"],
             simulated: vec!["App (scroll-heavy)", "Pipe", "Window (narrowing resizes)", "Consumer (all / partial / drop)"],
